@@ -50,6 +50,7 @@ func runC14(p *core.Program, r *core.Report) {
 	c14R5(p, r, fs)
 	c14R6(p, r)
 	c14R7(p, r)
+	c14R16(p, r)
 	// R8: "the answer is the same on every call": nothing reached by the resolver keeps state on the loaded package
 	r.Floor("R8", 1)
 	universeWriteScan(p, r, "R8", nil)
